@@ -194,6 +194,8 @@ def build(a):
             op, neg = "=", not neg      # the model expresses != as a negated equality
         if op not in CMP_CLASS:
             raise NotBuildable("the model has no class for operator %s" % op)
+        if not neg:
+            return getattr(P, CMP_CLASS[op])(build_path(a[3]), build_const(a[4]))     # as a caller writes a plain comparison: 'negated' left at its default
         return getattr(P, CMP_CLASS[op])(build_path(a[3]), build_const(a[4]), neg)
     raise ValueError(a)
 
@@ -429,7 +431,9 @@ def constant_menu():
         ("FloatConstant", (1.5,), ("float", 1.5)), ("FloatConstant", ("1.5",), ("float", 1.5)), ("FloatConstant", (nan,), None), ("FloatConstant", (inf,), None), ("FloatConstant", (-inf,), None),
         ("FloatConstant", ("nan",), None), ("FloatConstant", (1e22,), ("float", 1e22)), ("FloatConstant", (1e-7,), ("float", 1e-7)), ("FloatConstant", (5,), ("float", 5.0)), ("FloatConstant", ("x",), None),
         ("BooleanConstant", (True,), ("bool", True)), ("BooleanConstant", ("true",), ("bool", True)), ("BooleanConstant", ("F",), ("bool", False)), ("BooleanConstant", ("maybe",), None),
-        ("BooleanConstant", (0,), ("bool", False)), ("BooleanConstant", (2,), None),
+        ("BooleanConstant", (0,), ("bool", False)), ("BooleanConstant", (2,), None), ("BooleanConstant", (1,), ("bool", True)), ("BooleanConstant", (False,), ("bool", False)),
+        ("BooleanConstant", ("TRUE",), ("bool", True)), ("BooleanConstant", ("false",), ("bool", False)), ("BooleanConstant", ("t",), ("bool", True)), ("BooleanConstant", ("1",), ("bool", True)),
+        ("BooleanConstant", ("0",), ("bool", False)),
         ("StringConstant", ("it's \\ \n",), ("str", "it's \\ \n")), ("StringConstant", ("",), ("str", "")),
         ("TimestampConstant", ("2017-01-01T00:00:00Z",), ("ts", A.T1)), ("TimestampConstant", ("2017-01-01T00:00:00Z\n",), None), ("TimestampConstant", ("2017-01-01",), None),
         ("TimestampConstant", ("yesterday",), None), ("TimestampConstant", ("2017-01-01T00:00:00.123456Z",), ("ts", A.T1 + 123456 * tsfmt.PS_PER_US)),
